@@ -68,7 +68,7 @@ pub fn fuzz_plan(prop: &str) -> Vec<(&'static str, usize, u32)> {
         "C16" => vec![("import", 1500, 4)],
         "C17" => vec![("generic-random", 1500, 2), ("raw-cells", 900, 2), ("gds-structs", 900, 2), ("tetris-cells", 900, 2), ("tetris-proto-export", 900, 2), ("placement", 700, 2)],
         "C18" => vec![("gds-markup", 1800, 8), ("lef-markup", 2600, 8), ("scalars", 120, 2)],
-        "C19" => vec![("roundtrip", 500, 2), ("negative", 520, 2)],
+        "C19" => vec![("roundtrip", 500, 2), ("negative", 520, 2), ("roundtrip-large", 900, 24)],
         "C20" => vec![("raw-to-gds", 900, 48), ("raw-to-proto", 900, 48), ("gds-to-raw", 900, 64), ("proto-to-raw", 900, 48), ("raw-to-proto-large", 1500, 400), ("lef-raw-lef", 900, 48), ("tetris-to-raw-gds-proto", 900, 64)],
         _ => vec![],
     }
